@@ -75,9 +75,20 @@ pub fn sign(case: &Value, reg: &Registry) -> Value {
 fn parse_keys(v: &Value) -> Result<Vec<PublicKey>, String> {
     let mut res = Vec::new();
     for k in v.as_array().map(|a| a.as_slice()).unwrap_or(&[]) {
-        res.push(
-            crate::util::via_text::<PublicKey>(k)
+        if let Some(spki) = k.get("spki").and_then(|x| x.as_str()) {
+            // a key imported from DER with a caller-chosen scheme (the JSON form cannot
+            // carry a scheme that does not fit the key type)
+            res.push(
+                PublicKey::from_spki(
+                    &unhex(spki),
+                    scheme_of(k["scheme"].as_str().unwrap_or("")),
+                )
                 .map_err(|e| e.to_string())?,
+            );
+            continue;
+        }
+        res.push(
+            crate::util::via_text::<PublicKey>(k).map_err(|e| e.to_string())?,
         );
     }
     Ok(res)
@@ -108,6 +119,22 @@ pub fn block(case: &Value) -> Value {
         }
     };
     let threshold = case["threshold"].as_u64().unwrap_or(1) as u32;
+    let mut mb = mb;
+    if case["relabel_to_auth0"].as_bool().unwrap_or(false) && !auth.is_empty() {
+        // attribute every signature entry to the first authorised key (whose id the generator
+        // need not know)
+        let id = serde_json::to_value(auth[0].key_id()).unwrap();
+        let sigs: Vec<Signature> = mb
+            .signatures
+            .iter()
+            .map(|s| {
+                let mut v = serde_json::to_value(s).unwrap();
+                v["keyid"] = id.clone();
+                crate::util::via_text::<Signature>(&v).unwrap()
+            })
+            .collect();
+        mb.signatures = sigs;
+    }
     let r = guarded(|| mb.verify(threshold, auth.iter()));
     o["verify"] = match r {
         Ok(Ok(meta)) => {
